@@ -248,6 +248,7 @@ func runSeq(ops []op, w *world) (msg string, hang bool) {
 			var blocked bool
 			target := "rtag"
 			enabled := true
+			emptyFirst := false
 			if o.K == "LogTag" {
 				lv := lvls[o.Level]
 				// which tag: the one of package init that a wildcard serves, one that only root serves,
@@ -274,6 +275,19 @@ func runSeq(ops []op, w *world) (msg string, hang bool) {
 				target = "r" + hn
 				if hn == "root" && w.state == "liveA" {
 					target = "console"
+				}
+				// a third of the writes come after an empty one through the same handle (nil or zero
+				// length: legal io.Writer calls) - it neither panics nor blocks, and the write after it
+				// is served like any other
+				if e := o.Level % 3; e > 0 {
+					emptyFirst = true
+					payload := []byte(nil)
+					if e == 2 {
+						payload = []byte{}
+					}
+					if p0, b0 := do(func() { _, _ = handles[hn].Write(payload) }); b0 || p0 != nil {
+						return fail("%s: an empty write (%#v) through handle %s panicked or blocked: %v", o, payload, hn, p0), b0
+					}
 				}
 				p, blocked = do(func() { _, _ = handles[hn].Write([]byte(fmt.Sprintf("id=%d\n", id))) })
 			}
@@ -313,6 +327,15 @@ func runSeq(ops []op, w *world) (msg string, hang bool) {
 				n0 := before
 				if !waitFor(func() bool { return totalRecs() > n0 }) {
 					return fail("%s under a live configuration was not delivered to any appender", o), false
+				}
+				if emptyFirst {
+					// the empty write may have been recorded as an item of its own: wait for the judged one
+					if !waitFor(func() bool {
+						r := vk.Rec(target)
+						return r != nil && r.Len() > 0 && r.Items()[r.Len()-1].ID == id
+					}) {
+						return fail("%s (after an empty write through the same handle) under a live configuration was not routed to appender %s as configured", o, target), false
+					}
 				}
 				r := vk.Rec(target)
 				if r == nil || r.Len() == 0 || r.Items()[r.Len()-1].ID != id {
